@@ -49,7 +49,7 @@ def _plan(thorough):
         for uni in ('nat', 'or_int_bool') + COMBS:
             plan += [(uni, c, 3, False, False) for c in cfgs]
         plan += [('comb4_int', c, 4, False, False) for c in ('fresh', 'chain5', 'lit5')]
-        plan += [('string', c, 5, False, False) for c in ('fresh', 'chain0', 'chain5', 'chain7', 'lit5', 'lit7')]
+        plan += [('string', c, 5, False, False) for c in ('fresh', 'chain5', 'chain7', 'lit5')]
     return plan
 
 
@@ -78,7 +78,7 @@ def run_R(ck):
     thorough = ck.thorough()
     plan = _plan(thorough)
     ck.bound('C15_history_length', {'quick': 'all histories <= 3 (3 key types x 16 big_maps); <= 2 for the 4 comb key types x 16 big_maps (<= 3 for the 4-comb on 3); <= 4 for string keys on 3 big_maps',
-                                    'thorough': 'all histories <= 4 (3 key types x 16 big_maps), <= 3 (6 more key types incl. the 4 comb key types; <= 4 for the 4-comb on 3 big_maps), <= 5 for string keys on 6 big_maps'}[ck.tier])
+                                    'thorough': 'all histories <= 4 (3 key types x 16 big_maps), <= 3 (6 more key types incl. the 4 comb key types; <= 4 for the 4-comb on 3 big_maps), <= 5 for string keys on 4 big_maps'}[ck.tier])
     ck.bound('C15_operations', '18 = {GET, MEM, UPDATE Some, UPDATE None, GET_AND_UPDATE Some, GET_AND_UPDATE None} x 3 keys; every write stores a new value')
     ck.bound('C15_big_maps', 'fresh (EMPTY_BIG_MAP); on-chain id with each of the 8 subsets of the 3 keys on chain; literal-initialised with each of the 7 non-empty subsets')
     ck.bound('C15_key_universes', {k: [repr(x) for x in v[1]] for k, v in H.UNIVERSES.items()})
